@@ -18,7 +18,7 @@ ACTIONS = ['StartRead', 'LdTo', 'rd_arr', 'rf0', 'rf1', 'rd_dep', 'StartUpdate',
 
 
 def programs(quick):
-    P = ['lr;;update10,update5;load,load',
+    P = ['lr;;update10,update5;load,load', 'lr;;update10,update5,update2;load,load',
          'lr;;update10,update5,update2;load',
          'lr;update3;update10;load,load,load',
          'lr;;update10;update5;load,load',
@@ -53,8 +53,10 @@ def run(ctx):
     ctx.note('mechanism "version toggle" (Toggle = FALSE) yields no safety counterexample: without the toggle the writer waits for both '
              'read indicators, which is safe but lets readers starve the writer - a progress mechanism, not needed for C13')
     progs = programs(q)
-    xs = run_parallel([lambda i=i: explore(ctx, 'lr_dfs_%d' % i, 'leftright', [progs[i]], mode='dfs', pb=2 if q else 3,
-                                           max_exec=6000 if q else 60000) for i in range(len(progs))], maxw=12)
+    xs = run_parallel([lambda i=i: explore(ctx, 'lr_dfs_%d' % i, 'leftright', [progs[i]], mode='dfs', pb=3 if q else 4,
+                                           max_exec=9000 if q else 120000) for i in range(len(progs))], maxw=12)
+    xs += run_parallel([lambda i=i: explore(ctx, 'lr_rq_%d' % i, 'leftright', [progs[i]], mode='random', pb=5, runs=1500 if q else 6000)
+                        for i in range(len(progs))], maxw=12)
     if not q:
         xs += run_parallel([lambda i=i: explore(ctx, 'lr_rnd_%d' % i, 'leftright', [progs[i]], mode='random', pb=6, runs=3000)
                             for i in range(len(progs))], maxw=12)
